@@ -55,6 +55,7 @@ type HarnessResult struct {
 	Sat             int            `json:"sat"`
 	Unsat           int            `json:"unsat"`
 	Unknown         int            `json:"unknown"`
+	OneShot         int            `json:"one_shot"`
 	SolverSeconds   float64        `json:"solver_s"`
 	SolverErrors    []string       `json:"solver_errors"`
 	WallSeconds     float64        `json:"wall_s"`
@@ -225,6 +226,7 @@ func Explore(env *Env, harnessName string, cfg *ExploreConfig) *HarnessResult {
 				hr.Sat += solver.NSat
 				hr.Unsat += solver.NUnsat
 				hr.Unknown += solver.NUnknown
+				hr.OneShot += solver.NOneShot
 				hr.SolverSeconds += solver.Time.Seconds()
 				for _, e := range solver.Errors {
 					if len(hr.SolverErrors) < 20 {
